@@ -1119,8 +1119,8 @@ func fmtmagicCallers(o *out) {
 			return true
 		})
 		o.f("Definition server_sign_sniffs : bool := %v. (* server.serveSign calls magic.* / ByMagic / ByFile / ByFileName *)\n", sniffs)
-		o.condOf(funcSpec{dir: "server", recv: "Server", name: "serveSign", coqName: "server_sign_unknown_type", params: "(found : bool)", retType: "bool",
-			leaves: map[string]string{"mod == nil": "(negb found)"}, types: map[string]string{"mod == nil": "bool"}}, "if:mod == nil")
+		o.condOf(funcSpec{dir: "server", recv: "Server", name: "serveSign", coqName: "server_sign_unknown_type", params: "(found has_sign : bool)", retType: "bool",
+			leaves: map[string]string{"mod == nil": "(negb found)", "mod.Sign == nil": "(negb has_sign)"}, types: map[string]string{"mod == nil": "bool", "mod.Sign == nil": "bool"}}, "if:mod == nil")
 		fingerprint("server", "Server", "serveSign")
 	}
 }
